@@ -7,7 +7,7 @@
   * `EnqInv`    : ids are handed out in splice-in order
   * `MutexInv`  : `qm = some t` iff `t` is a waiter evaluating its predicate
 
-  Each is proved initially and preserved by every `step` (case analysis `step_cases`, 72 cases), then
+  Each is proved initially and preserved by every `step` (case analysis `step_cases`, 75 cases), then
   lifted to `ReachF` by `ReachF.induction`.
 -/
 import EventppVerif.Conc.QueueInv
@@ -42,7 +42,7 @@ theorem GuardInv.step {s : State} {t ch : Nat} {s' : State} (hinv : GuardInv s) 
     GuardInv s' := by
   unfold GuardInv at *
   step_cases h th hg hpc
-  case enqNotify | dqnNotify =>
+  case enqNotify | dqnNotify | procPbNotify =>
     have hg2 := threads_notifyOne_of hg (by simp [hpc]) ch
     have hb := guardCountL_ge hg
     simp only [setT_threads, setT_ec, guardCountL_set hg2, guardCountL_notifyOne, notifyOne_ec, hpc, guardActive,
@@ -107,7 +107,7 @@ theorem ConsInv.step {s : State} {t ch : Nat} {s' : State} (hinv : ConsInv s) (h
   intro a
   have h1 := hinv a
   step_cases h th hg hpc
-  case enqNotify | dqnNotify =>
+  case enqNotify | dqnNotify | procPbNotify =>
     have hg2 := threads_notifyOne_of hg (by simp [hpc]) ch
     have hb := count_inflightOf_le hg a
     simp only [setT_threads, setT_queue, setT_consumed, setT_nextEv, count_inflightL_set hg2, inflightL_notifyOne,
@@ -165,7 +165,7 @@ theorem mutex_step_core {s : State} {t ch : Nat} {s' : State} (h : step s t ch =
   step_cases h th2 hg hpc
   all_goals
     rw [hg'] at hg; cases hg
-  case enqNotify | dqnNotify =>
+  case enqNotify | dqnNotify | procPbNotify =>
     have hg2 := threads_notifyOne_of hg' (by simp [hpc]) ch
     refine ⟨fun u hu => ?_, _, set_self hg2 _, ?_⟩
     · have hu' : ¬ t = u := fun h => hu h.symm
